@@ -334,6 +334,12 @@ func (w *World) returnsFresh(fn *ssa.Function, depth int) (bool, string) {
 			if !x.Heap {
 				return false, "returns a stack slot"
 			}
+			// deep: nothing that can carry mutable state is copied into the new
+			// object from outside the call (a shallow copy of a prototype shares
+			// the prototype's encoder / decoder / buffers with every "fresh" object)
+			if ok, f := w.freshContent(x, depth); !ok {
+				return false, f
+			}
 		case *ssa.Call:
 			sc := x.Call.StaticCallee()
 			if sc == nil {
@@ -342,9 +348,151 @@ func (w *World) returnsFresh(fn *ssa.Function, depth int) (bool, string) {
 			if ok, f := w.returnsFresh(sc, depth+1); !ok {
 				return false, fnName(sc) + ": " + f
 			}
+			// what the constructor is given must not carry shared mutable state either
+			for _, a := range x.Call.Args {
+				if ok, f := w.freshOperand(a, depth); !ok {
+					return false, "argument of " + fnName(sc) + " at " + w.instrPos(x) + ": " + f
+				}
+			}
 		default:
 			return false, "returns " + v.String() + " at " + w.instrPos(ret) + ", not a value allocated in the call"
 		}
 	}
 	return true, "every return yields a value allocated during the call"
+}
+
+// carriesRefs: a value of type t can hold a reference to mutable memory.  The
+// caller-supplied name/type maps are shared read-only by contract (C12) and
+// do not count.
+func carriesRefs(t types.Type, depth int) bool {
+	if depth > 6 {
+		return true
+	}
+	switch u := t.Underlying().(type) {
+	case *types.Pointer, *types.Slice, *types.Chan, *types.Interface, *types.Signature:
+		return true
+	case *types.Map:
+		ts := typeStr(t)
+		return !(ts == "map[string]string" || ts == "map[string]reflect.Type")
+	case *types.Struct:
+		for i := 0; i < u.NumFields(); i++ {
+			if carriesRefs(u.Field(i).Type(), depth+1) {
+				return true
+			}
+		}
+	case *types.Array:
+		return carriesRefs(u.Elem(), depth+1)
+	}
+	return false
+}
+
+// freshContent: every store into the object allocated by al (whole or by
+// field) stores a value that cannot alias memory older than the call.
+func (w *World) freshContent(al *ssa.Alloc, depth int) (bool, string) {
+	var walk func(addr ssa.Value, d int) (bool, string)
+	walk = func(addr ssa.Value, d int) (bool, string) {
+		if d > 3 || addr.Referrers() == nil {
+			return true, ""
+		}
+		for _, ref := range *addr.Referrers() {
+			switch x := ref.(type) {
+			case *ssa.Store:
+				if x.Addr != addr {
+					continue
+				}
+				if ok, f := w.freshOperand(x.Val, depth); !ok {
+					return false, "the new object is filled at " + w.instrPos(x) + " with " + f
+				}
+			case *ssa.FieldAddr:
+				if ok, f := walk(x, d+1); !ok {
+					return false, f
+				}
+			case *ssa.IndexAddr:
+				if ok, f := walk(x, d+1); !ok {
+					return false, f
+				}
+			}
+		}
+		return true, ""
+	}
+	return walk(al, 0)
+}
+
+// freshOperand: v carries no reference to memory that existed before the call:
+// a constant, a value without references, a parameter (the call site answers
+// for it), an allocation made here whose content is fresh, or the result of a
+// function that returns fresh values.
+func (w *World) freshOperand(v ssa.Value, depth int) (bool, string) {
+	if depth > 5 {
+		return false, "too deep"
+	}
+	if !carriesRefs(v.Type(), 0) {
+		return true, ""
+	}
+	switch x := v.(type) {
+	case *ssa.Const, *ssa.Parameter, *ssa.MakeMap, *ssa.MakeSlice, *ssa.MakeChan, *ssa.Function:
+		return true, ""
+	case *ssa.MakeClosure:
+		return true, ""
+	case *ssa.MakeInterface:
+		return w.freshOperand(x.X, depth)
+	case *ssa.ChangeInterface:
+		return w.freshOperand(x.X, depth)
+	case *ssa.ChangeType:
+		return w.freshOperand(x.X, depth)
+	case *ssa.Alloc:
+		return w.freshContent(x, depth+1)
+	case *ssa.Phi:
+		for _, e := range x.Edges {
+			if ok, f := w.freshOperand(e, depth+1); !ok {
+				return false, f
+			}
+		}
+		return true, ""
+	case *ssa.Call:
+		sc := x.Call.StaticCallee()
+		if sc == nil {
+			return false, "the result of a dynamic call"
+		}
+		if !w.inPkg(sc) {
+			// library constructors (bytes.NewBuffer, bufio.NewReader …) return new objects
+			return true, ""
+		}
+		if ok, f := w.returnsFresh(sc, depth+1); !ok {
+			return false, "the result of " + fnName(sc) + " (" + f + ")"
+		}
+		for _, a := range x.Call.Args {
+			if ok, f := w.freshOperand(a, depth+1); !ok {
+				return false, f
+			}
+		}
+		return true, ""
+	case *ssa.UnOp:
+		if x.Op == token.MUL {
+			// a load: of a local that only ever held fresh values, or a copy of older memory
+			if al, ok := x.X.(*ssa.Alloc); ok {
+				return w.freshContent(al, depth+1)
+			}
+			return false, "a copy of " + typeStr(x.Type()) + " read through " + describeAddr(x.X) + ": the copy shares every pointer, slice and interface inside it with the original"
+		}
+	case *ssa.TypeAssert:
+		return w.freshOperand(x.X, depth)
+	case *ssa.Extract:
+		return w.freshOperand(x.Tuple, depth)
+	}
+	return false, "a value that is not allocated in the call (" + v.String() + ")"
+}
+
+func describeAddr(a ssa.Value) string {
+	switch x := a.(type) {
+	case *ssa.FreeVar:
+		return "the captured variable " + x.Name()
+	case *ssa.Global:
+		return "the package variable " + x.Name()
+	case *ssa.FieldAddr:
+		return "a field of " + describeAddr(x.X)
+	case *ssa.UnOp:
+		return describeAddr(x.X)
+	}
+	return a.Name()
 }
